@@ -23,8 +23,10 @@ import (
 	"sync/atomic"
 	"time"
 
+	"github.com/pentops/j5/gen/j5/ext/v1/ext_j5pb"
 	"github.com/pentops/j5/gen/test/schema/v1/schema_testpb"
 	"github.com/pentops/j5/internal/codec"
+	"github.com/pentops/j5/j5types/any_j5t"
 	"github.com/pentops/j5/lib/j5schema"
 	"google.golang.org/protobuf/encoding/protojson"
 	"google.golang.org/protobuf/proto"
@@ -32,12 +34,14 @@ import (
 	"google.golang.org/protobuf/reflect/protoreflect"
 	"google.golang.org/protobuf/reflect/protoregistry"
 	"google.golang.org/protobuf/types/descriptorpb"
+	"google.golang.org/protobuf/types/known/anypb"
 	"google.golang.org/protobuf/types/dynamicpb"
 )
 
 type c10Type struct {
 	Pkg      string   `json:"pkg"`
 	Children []string `json:"children"`
+	SelfFlat bool     `json:"selfflat"` // the field to the type itself is flattened: the schema builds but is rejected (Invalid)
 }
 
 type c10Case struct {
@@ -93,12 +97,21 @@ func buildGraphTypes(graph map[string]c10Type) (map[string]protoreflect.MessageD
 					label = descriptorpb.FieldDescriptorProto_LABEL_REPEATED
 				}
 				fname := "f" + strconv.Itoa(i) + strings.ToLower(c)
-				msg.Field = append(msg.Field, &descriptorpb.FieldDescriptorProto{
+				fdp := &descriptorpb.FieldDescriptorProto{
 					Name: proto.String(fname), JsonName: proto.String(fname), Number: proto.Int32(int32(i + 2)),
 					Type:     descriptorpb.FieldDescriptorProto_TYPE_MESSAGE.Enum(),
 					TypeName: proto.String("." + cp + "." + c),
 					Label:    label.Enum(),
-				})
+				}
+				if graph[t].SelfFlat && c == t {
+					fdp.Label = descriptorpb.FieldDescriptorProto_LABEL_OPTIONAL.Enum()
+					fdp.Options = &descriptorpb.FieldOptions{}
+					proto.SetExtension(fdp.Options, ext_j5pb.E_Field, &ext_j5pb.FieldOptions{
+						Type: &ext_j5pb.FieldOptions_Object{Object: &ext_j5pb.ObjectField{Flatten: true}},
+					})
+					deps["j5/ext/v1/annotations.proto"] = true
+				}
+				msg.Field = append(msg.Field, fdp)
 			}
 			fd.MessageType = append(fd.MessageType, msg)
 		}
@@ -107,6 +120,40 @@ func buildGraphTypes(graph map[string]c10Type) (map[string]protoreflect.MessageD
 		}
 		sort.Strings(fd.Dependency)
 		fds = append(fds, fd)
+	}
+	// annotation files come from the global registry, with everything they import
+	seenDep := map[string]bool{}
+	var addDep func(path string) error
+	addDep = func(path string) error {
+		if seenDep[path] {
+			return nil
+		}
+		seenDep[path] = true
+		gf, err := protoregistry.GlobalFiles.FindFileByPath(path)
+		if err != nil {
+			return err
+		}
+		imps := gf.Imports()
+		for i := 0; i < imps.Len(); i++ {
+			if err := addDep(imps.Get(i).Path()); err != nil {
+				return err
+			}
+		}
+		fds = append(fds, protodesc.ToFileDescriptorProto(gf))
+		return nil
+	}
+	own := map[string]bool{}
+	for _, fd := range fds {
+		own[fd.GetName()] = true
+	}
+	for _, fd := range append([]*descriptorpb.FileDescriptorProto{}, fds...) {
+		for _, d := range fd.Dependency {
+			if !own[d] {
+				if err := addDep(d); err != nil {
+					return nil, err
+				}
+			}
+		}
 	}
 	files, err := protodesc.NewFiles(&descriptorpb.FileDescriptorSet{File: fds})
 	if err != nil {
@@ -553,11 +600,29 @@ func c10Rich(raw json.RawMessage) *Out {
 	if err := protojson.Unmarshal([]byte(richProtoJSON), msg); err != nil {
 		return &Out{Skip: "cannot build FullSchema: " + err.Error()}
 	}
-	priv := codec.NewCodec()
+	// Any fields whose payload exists as proto bytes only: the encoder transcodes them through a nested encoding
+	inner := &schema_testpb.Bar{BarId: "any-bar", BarField: "inside an any"}
+	if pa, err := anypb.New(inner); err == nil {
+		msg.Pbany = pa
+	}
+	if ib, err := proto.Marshal(inner); err == nil {
+		msg.J5Any = &any_j5t.Any{TypeName: string(inner.ProtoReflect().Descriptor().FullName()), Proto: ib}
+	}
+	// the reference calls use a private codec configured like the shared one (codec.Global has no options)
+	newCodec := func() *codec.Codec {
+		if c.Global {
+			return codec.NewCodec()
+		}
+		return codec.NewCodec(codec.WithProtoToAny())
+	}
+	priv := newCodec()
 	j5doc, err := priv.ProtoToJSON(msg.ProtoReflect())
 	if err != nil {
 		return &Out{Skip: "sequential encode fails: " + err.Error()}
 	}
+	// what decoding that document gives sequentially (an Any comes back with its JSON text as well)
+	seqDec := &schema_testpb.FullSchema{}
+	seqDecErr := priv.JSONToProto(j5doc, seqDec.ProtoReflect())
 	call := func(cc *codec.Codec, kind int) (res string) {
 		defer func() {
 			if r := recover(); r != nil {
@@ -576,8 +641,8 @@ func c10Rich(raw json.RawMessage) *Out {
 			if err := cc.JSONToProto(j5doc, m.ProtoReflect()); err != nil {
 				return "dec-err: " + err.Error()
 			}
-			if !proto.Equal(m, msg) {
-				return "dec: differs from the original message"
+			if seqDecErr != nil || !proto.Equal(m, seqDec) {
+				return "dec: differs from the sequentially decoded message"
 			}
 			return "dec: equal"
 		default:
@@ -591,9 +656,9 @@ func c10Rich(raw json.RawMessage) *Out {
 	}
 	var expect [3]string
 	for k := 0; k < 3; k++ {
-		expect[k] = call(codec.NewCodec(), k)
+		expect[k] = call(newCodec(), k)
 	}
-	shared := codec.NewCodec()
+	shared := newCodec()
 	if c.Global {
 		shared = codec.Global
 	}
